@@ -4,15 +4,17 @@ use crate::core::Driver;
 pub mod c12;
 pub mod c13;
 pub mod c15;
+pub mod c17;
 pub mod toy;
 
-pub const ALL: &[&str] = &["C12", "C13", "C15", "TOY"];
+pub const ALL: &[&str] = &["C12", "C13", "C15", "C17", "TOY"];
 
 pub fn registry(id: &str) -> Box<dyn Driver> {
     match id {
         "C12" => c12::driver(),
         "C13" => c13::driver(),
         "C15" => c15::driver(),
+        "C17" => c17::driver(),
         "TOY" => toy::driver(),
         _ => panic!("MACHINERY: unknown property id {id}"),
     }
